@@ -32,7 +32,8 @@ for pid in sys.argv[2:]:
              "Corners worth considering: error/failure paths and what state they leave behind, rarely combined options or wrappers, "
              "callbacks that call back into the same object, objects used right after construction or right after shutdown/restart, "
              "the less used methods of the API, aliasing of caller-owned slices, integer boundaries, state shared between several objects "
-             "of the same type, two objects used together (a view and its parent, a group and its pools, a set and its derived set)." % "; ".join(earlier))
+             "of the same type, two objects used together (a view and its parent, a group and its pools, a set and its derived set), "
+             "promptness (something that must happen soon happens only much later), options and constructors that the examples never use." % "; ".join(earlier))
     mod, pkgs = MOD[pid]
     t = open(os.path.join(ROOT, "tools", "seed_prompt.txt")).read()
     t = t.replace("@R@", r).replace("@FOCUS@", focus).replace("@MOD@", mod).replace("@PKGS@", pkgs).replace("second-round", "later-round")
